@@ -157,6 +157,9 @@ class Type3Tag(nfc.tag.Tag):
 
         def _read_attribute_data(self):
             data = self._tag.read_from_ndef_service(0)
+            if data is None:
+                log.debug("ndef attribute data could not be read")
+                return None
 
             if sum(data[0:14]) != unpack(">H", data[14:16])[0]:
                 log.debug("ndef attribute data checksum error")
@@ -223,9 +226,13 @@ class Type3Tag(nfc.tag.Tag):
                 last_block = min(i + nbr, last_block_number)
                 block_list = range(i, last_block)
                 try:
-                    data += self.tag.read_from_ndef_service(*block_list)
+                    block_data = self.tag.read_from_ndef_service(*block_list)
                 except Type3TagCommandError:
                     return None
+                if block_data is None:
+                    log.debug("ndef data blocks could not be read")
+                    return None
+                data += block_data
 
             data = data[0:attributes['ln']]
             log.debug("got {0} byte ndef data {1}{2}".format(
